@@ -92,6 +92,11 @@ func (g *DocGen) Schema(depth int) S {
 		}
 		if g.p(0.2) {
 			s["pattern"] = g.pick("^[a-z]+$", "^\\d{2,4}$", "a|b", "^.*$", "^(x|y)+z?$")
+			if g.Unusual && g.p(0.3) {
+				// legal ECMA-262 patterns that Go's regexp cannot compile: validating against them is an error, every time
+				s["pattern"] = g.pick("^(?=a)a+$", "^(a)\\1$", "(?!x)y", "(?<=a)b")
+				delete(s, "type") // (document validation compiles the patterns of string-typed schemas and would reject the document)
+			}
 		}
 		if g.p(0.15) {
 			s["enum"] = Arr("aa", "bb", "cc")
